@@ -7,8 +7,9 @@ package main
 //                      later cannot be missed; each body must be a single `return <int literal>`
 //   retryRequeueGuard  the condition of the `if` whose body is `w.queue.AddRateLimited(key)` in
 //                      reconciler.Controller.syncItem, printed with go/printer
-//   retryWorkShape     the statement skeleton of reconciler.Controller.work:
-//                      Get / defer Done / syncItem / if err != nil {…; return} / Forget
+//   retryWorkShape     the skeleton of reconciler.Controller.work (see workShape):
+//                      Get / defer Done / syncItem / on error: handleError, return true /
+//                      on success: Forget, return true
 //   retrySplitEarly    syncItem returns the split error before calling the handler
 
 import (
@@ -17,6 +18,7 @@ import (
 	"go/ast"
 	"go/parser"
 	"go/printer"
+	"go/token"
 	"os"
 	"path/filepath"
 	"sort"
@@ -46,6 +48,152 @@ func recvName(fd *ast.FuncDecl) string {
 	return ""
 }
 
+// workShape is the skeleton of reconciler.Controller.work.  The head (Get / quit check / defer
+// Done / syncItem) is matched statement by statement up to the names of the locals; the tail is
+// reduced to what happens on the two paths `err != nil` and `err == nil`, so that
+//
+//	if err != nil { w.handleError(err, item); return true }; w.queue.Forget(item); return true
+//	if err != nil { w.handleError(err, item) } else { w.queue.Forget(item) }; return true
+//
+// are the same skeleton: "on-error-return" = on error handleError is called, Forget is NOT
+// called and work returns true; "forget" = on success Forget is called and work returns true.
+// Any other sequence of effects on a path is printed into the skeleton (which then differs).
+func workShape(fd *ast.FuncDecl) []string {
+	recv := recvVar(fd)
+	ctx := paramVar(fd, 0)
+	item, quit, errv := "", "", ""
+	var shape []string
+	isCall := func(e ast.Expr, fun string, args ...string) bool {
+		ce, ok := e.(*ast.CallExpr)
+		if !ok || printNode(ce.Fun) != fun || len(ce.Args) != len(args) || ce.Ellipsis.IsValid() {
+			return false
+		}
+		for i, a := range args {
+			if a == "" || !isIdentNamed(a)(ce.Args[i]) {
+				return false
+			}
+		}
+		return true
+	}
+	// define1/2: `<a>[, <b>] := <call>`; returns the defined names
+	define := func(st ast.Stmt, n int) ([]string, ast.Expr) {
+		as, ok := st.(*ast.AssignStmt)
+		if !ok || as.Tok != token.DEFINE || len(as.Lhs) != n || len(as.Rhs) != 1 {
+			return nil, nil
+		}
+		var names []string
+		for _, l := range as.Lhs {
+			id, ok := l.(*ast.Ident)
+			if !ok {
+				return nil, nil
+			}
+			names = append(names, id.Name)
+		}
+		return names, as.Rhs[0]
+	}
+	stmts := fd.Body.List
+	tail := -1
+	for i := 0; i < len(stmts) && tail < 0; i++ {
+		st := stmts[i]
+		if names, rhs := define(st, 2); names != nil && item == "" && isCall(rhs, recv+".queue.Get") {
+			item, quit = names[0], names[1]
+			shape = append(shape, "get")
+			continue
+		}
+		if is, ok := st.(*ast.IfStmt); ok && quit != "" && is.Init == nil && is.Else == nil && isIdentNamed(quit)(stripParens(is.Cond)) &&
+			len(is.Body.List) == 1 && printNode(is.Body.List[0]) == "return false" {
+			continue
+		}
+		if ds, ok := st.(*ast.DeferStmt); ok && isCall(ds.Call, recv+".queue.Done", item) {
+			shape = append(shape, "defer-done")
+			continue
+		}
+		if names, rhs := define(st, 1); names != nil && isCall(rhs, recv+".syncItem", ctx, item) {
+			errv = names[0]
+			shape = append(shape, "sync")
+			tail = i + 1
+			continue
+		}
+		// `if err := w.syncItem(ctx, item); err != nil {…} else {…}`: the same assignment as initialiser
+		if is, ok := st.(*ast.IfStmt); ok && is.Init != nil {
+			if names, rhs := define(is.Init, 1); names != nil && isCall(rhs, recv+".syncItem", ctx, item) {
+				errv = names[0]
+				shape = append(shape, "sync")
+				cp := *is
+				cp.Init = nil
+				stmts = append(append(append([]ast.Stmt{}, stmts[:i+1]...), &cp), stmts[i+1:]...)
+				tail = i + 1
+				continue
+			}
+		}
+		shape = append(shape, "?"+printNode(st))
+	}
+	if tail < 0 {
+		return shape
+	}
+	// effects of the tail on the path where err != nil is `failed`
+	var walk func(stmts []ast.Stmt, failed bool) ([]string, bool)
+	walk = func(stmts []ast.Stmt, failed bool) ([]string, bool) {
+		var eff []string
+		for _, st := range stmts {
+			switch s := st.(type) {
+			case *ast.IfStmt:
+				be, ok := stripParens(s.Cond).(*ast.BinaryExpr)
+				if s.Init != nil || !ok || (be.Op != token.NEQ && be.Op != token.EQL) ||
+					!isIdentNamed(errv)(stripParens(be.X)) || !isIdentNamed("nil")(stripParens(be.Y)) {
+					eff = append(eff, "?"+printNode(st))
+					continue
+				}
+				taken := failed == (be.Op == token.NEQ)
+				var branch []ast.Stmt
+				switch {
+				case taken:
+					branch = s.Body.List
+				case s.Else == nil:
+				default:
+					if blk, ok := s.Else.(*ast.BlockStmt); ok {
+						branch = blk.List
+					} else {
+						branch = []ast.Stmt{s.Else}
+					}
+				}
+				e, ret := walk(branch, failed)
+				eff = append(eff, e...)
+				if ret {
+					return eff, true
+				}
+			case *ast.ExprStmt:
+				switch {
+				case isCall(s.X, recv+".handleError", errv, item):
+					eff = append(eff, "handleError")
+				case isCall(s.X, recv+".queue.Forget", item):
+					eff = append(eff, "forget")
+				default:
+					eff = append(eff, "?"+printNode(st))
+				}
+			case *ast.ReturnStmt:
+				return append(eff, printNode(s)), true
+			default:
+				eff = append(eff, "?"+printNode(st))
+			}
+		}
+		return eff, false
+	}
+	onErr, _ := walk(stmts[tail:], true)
+	onOK, _ := walk(stmts[tail:], false)
+	if strings.Join(onErr, ";") == "handleError;return true" {
+		shape = append(shape, "on-error-return")
+	} else {
+		shape = append(shape, "?on-error: "+strings.Join(onErr, "; "))
+	}
+	if strings.Join(onOK, ";") == "forget;return true" {
+		shape = append(shape, "forget")
+	} else {
+		shape = append(shape, "?on-success: "+strings.Join(onOK, "; "))
+	}
+	return shape
+}
+
 func retryFacts(b *strings.Builder) {
 	// ---- every MaxRequeues() under pkg/
 	type mr struct {
@@ -53,111 +201,106 @@ func retryFacts(b *strings.Builder) {
 		val int64
 	}
 	var all []mr
-	root := filepath.Join(repo, "pkg")
-	_ = filepath.Walk(root, func(path string, info os.FileInfo, err error) error {
-		if err != nil || info.IsDir() || !strings.HasSuffix(path, ".go") || strings.HasSuffix(path, "_test.go") {
-			return nil
-		}
-		src, err := os.ReadFile(path)
-		if err != nil || !bytes.Contains(src, []byte("MaxRequeues()")) {
-			return nil
-		}
-		f, err := parser.ParseFile(fset, path, src, 0)
-		if err != nil {
-			failf("cannot parse %s: %v", path, err)
-			return nil
-		}
-		rel, _ := filepath.Rel(repo, path)
-		for _, d := range f.Decls {
-			fd, ok := d.(*ast.FuncDecl)
-			if !ok || fd.Name.Name != "MaxRequeues" || fd.Recv == nil {
-				continue
+	section("retry-maxrequeues", func() {
+		root := filepath.Join(repo, "pkg")
+		_ = filepath.Walk(root, func(path string, info os.FileInfo, err error) error {
+			if err != nil || info.IsDir() || !strings.HasSuffix(path, ".go") || strings.HasSuffix(path, "_test.go") {
+				return nil
 			}
-			if fd.Body == nil || len(fd.Body.List) != 1 {
-				failf("%s: %s.MaxRequeues is not a single return", rel, recvName(fd))
-				continue
+			src, err := os.ReadFile(path)
+			if err != nil || !bytes.Contains(src, []byte("MaxRequeues()")) {
+				return nil
 			}
-			rs, ok := fd.Body.List[0].(*ast.ReturnStmt)
-			if !ok || len(rs.Results) != 1 {
-				failf("%s: %s.MaxRequeues is not a single return", rel, recvName(fd))
-				continue
+			f, err := parser.ParseFile(fset, path, src, 0)
+			if err != nil {
+				failf("cannot parse %s: %v", path, err)
+				return nil
 			}
-			all = append(all, mr{recvName(fd) + "@" + filepath.ToSlash(rel), intLit(rs.Results[0], rel+":MaxRequeues")})
+			rel, _ := filepath.Rel(repo, path)
+			for _, d := range f.Decls {
+				fd, ok := d.(*ast.FuncDecl)
+				if !ok || fd.Name.Name != "MaxRequeues" || fd.Recv == nil {
+					continue
+				}
+				if fd.Body == nil || len(fd.Body.List) != 1 {
+					failf("%s: %s.MaxRequeues is not a single return", rel, recvName(fd))
+					continue
+				}
+				rs, ok := fd.Body.List[0].(*ast.ReturnStmt)
+				if !ok || len(rs.Results) != 1 {
+					failf("%s: %s.MaxRequeues is not a single return", rel, recvName(fd))
+					continue
+				}
+				all = append(all, mr{recvName(fd) + "@" + filepath.ToSlash(rel), intLit(rs.Results[0], rel+":MaxRequeues")})
+			}
+			return nil
+		})
+		sort.Slice(all, func(i, j int) bool { return all[i].key < all[j].key })
+		if len(all) == 0 {
+			failf("no MaxRequeues() method found under pkg/")
 		}
-		return nil
 	})
-	sort.Slice(all, func(i, j int) bool { return all[i].key < all[j].key })
-	if len(all) == 0 {
-		failf("no MaxRequeues() method found under pkg/")
-	}
-	b.WriteString("/-- every `MaxRequeues()` method under pkg/ (receiver@file ↦ returned literal) -/\ndef allMaxRequeues : List (String × Int) := [")
-	for i, m := range all {
-		if i > 0 {
-			b.WriteString(", ")
-		}
-		fmt.Fprintf(b, "(%s, %d)", leanStr(m.key), m.val)
-	}
-	b.WriteString("]\n")
 
 	// ---- syncItem: the guard of AddRateLimited, the early return of the split error
 	guard := ""
 	splitEarly := false
-	if fd := funcDecl(reconcilerFile, "Controller", "syncItem"); fd != nil && fd.Body != nil {
-		sawSplit, sawHandler := false, false
-		for _, st := range fd.Body.List {
-			s := printNode(st)
-			switch {
-			case strings.HasPrefix(s, "namespace, name, err := w.SplitMetaNamespaceKey(key)"):
-				sawSplit = true
-			case sawSplit && !sawHandler && s == "if err != nil { return err }":
-				splitEarly = true
-			case strings.Contains(s, "w.handler.SyncOne("):
-				sawHandler = true
-			}
-			if is, ok := st.(*ast.IfStmt); ok && is.Else == nil && len(is.Body.List) == 1 && printNode(is.Body.List[0]) == "w.queue.AddRateLimited(key)" {
-				if !sawHandler {
-					failf("syncItem: AddRateLimited before the handler is called")
+	section("retry-syncitem", func() {
+		if fd := funcDecl(reconcilerFile, "Controller", "syncItem"); fd != nil && fd.Body != nil {
+			sawSplit, sawHandler := false, false
+			for _, st := range fd.Body.List {
+				s := printNode(st)
+				switch {
+				case strings.HasPrefix(s, "namespace, name, err := w.SplitMetaNamespaceKey(key)"):
+					sawSplit = true
+				case sawSplit && !sawHandler && s == "if err != nil { return err }":
+					splitEarly = true
+				case strings.Contains(s, "w.handler.SyncOne("):
+					sawHandler = true
 				}
-				guard = printNode(is.Cond)
+				if is, ok := st.(*ast.IfStmt); ok && is.Else == nil && len(is.Body.List) == 1 && printNode(is.Body.List[0]) == "w.queue.AddRateLimited(key)" {
+					if !sawHandler {
+						failf("syncItem: AddRateLimited before the handler is called")
+					}
+					guard = printNode(is.Cond)
+				}
+			}
+			if strings.Count(printNode(fd.Body), "AddRateLimited") != 1 {
+				failf("syncItem: expected exactly one AddRateLimited call")
+			}
+			if strings.Contains(printNode(fd.Body), "Forget") {
+				failf("syncItem: unexpected Forget")
 			}
 		}
-		if strings.Count(printNode(fd.Body), "AddRateLimited") != 1 {
-			failf("syncItem: expected exactly one AddRateLimited call")
+		if guard == "" {
+			failf("syncItem: `if <guard> { w.queue.AddRateLimited(key) }` not found")
 		}
-		if strings.Contains(printNode(fd.Body), "Forget") {
-			failf("syncItem: unexpected Forget")
-		}
-	}
-	if guard == "" {
-		failf("syncItem: `if <guard> { w.queue.AddRateLimited(key) }` not found")
-	}
-	fmt.Fprintf(b, "/-- `syncItem`: the condition under which a failed key is re-queued -/\ndef retryRequeueGuard : String := %s\n", leanStr(guard))
-	fmt.Fprintf(b, "/-- `syncItem` returns the key-splitting error before the handler runs (no requeue) -/\ndef retrySplitEarly : Bool := %v\n", splitEarly)
+	})
 
 	// ---- work: statement skeleton
 	var shape []string
-	if fd := funcDecl(reconcilerFile, "Controller", "work"); fd != nil && fd.Body != nil {
-		for _, st := range fd.Body.List {
-			s := printNode(st)
-			switch {
-			case s == "item, quit := w.queue.Get()":
-				shape = append(shape, "get")
-			case s == "if quit { return false }":
-			case s == "defer w.queue.Done(item)":
-				shape = append(shape, "defer-done")
-			case s == "err := w.syncItem(ctx, item)":
-				shape = append(shape, "sync")
-			case s == "if err != nil { w.handleError(err, item) return true }":
-				shape = append(shape, "on-error-return")
-			case s == "w.queue.Forget(item)":
-				shape = append(shape, "forget")
-			case s == "return true":
-			default:
-				shape = append(shape, "?"+s)
-			}
+	section("retry-work", func() {
+		if fd := funcDecl(reconcilerFile, "Controller", "work"); fd != nil && fd.Body != nil {
+			shape = workShape(fd)
+		} else {
+			failf("reconciler.Controller.work not found")
 		}
-	} else {
-		failf("reconciler.Controller.work not found")
-	}
-	fmt.Fprintf(b, "/-- statement skeleton of `reconciler.Controller.work` -/\ndef retryWorkShape : List String := %s\n", leanStrList(shape))
+	})
+
+	emit(b, "retry-maxrequeues", func(b *strings.Builder) {
+		b.WriteString("/-- every `MaxRequeues()` method under pkg/ (receiver@file ↦ returned literal) -/\ndef allMaxRequeues : List (String × Int) := [")
+		for i, m := range all {
+			if i > 0 {
+				b.WriteString(", ")
+			}
+			fmt.Fprintf(b, "(%s, %d)", leanStr(m.key), m.val)
+		}
+		b.WriteString("]\n")
+	})
+	emit(b, "retry-syncitem", func(b *strings.Builder) {
+		fmt.Fprintf(b, "/-- `syncItem`: the condition under which a failed key is re-queued -/\ndef retryRequeueGuard : String := %s\n", leanStr(guard))
+		fmt.Fprintf(b, "/-- `syncItem` returns the key-splitting error before the handler runs (no requeue) -/\ndef retrySplitEarly : Bool := %v\n", splitEarly)
+	})
+	emit(b, "retry-work", func(b *strings.Builder) {
+		fmt.Fprintf(b, "/-- statement skeleton of `reconciler.Controller.work` -/\ndef retryWorkShape : List String := %s\n", leanStrList(shape))
+	})
 }
